@@ -268,7 +268,7 @@ func sliceFor(t reflect.Type, tag string) interface{} {
 	case "aaaa":
 		return net.IP{0x20, 0x01, 0x0d, 0xb8, 0, 0, 0, 0, 0, 0, 0, 0, 0, 0, 0, 0x35}
 	case "txt":
-		return []string{"Alpha", "beta gamma", "Z"}
+		return []string{"Alpha", "beta gamma", strings.Repeat("Mx", 127) + "Z", "Z"} // the third one has the maximum length (255)
 	case "domain-name":
 		return []string{"Rvs1.Example.ORG.", "rvs2.example.org."}
 	case "nsec":
@@ -296,6 +296,10 @@ func Options() []dns.EDNS0 {
 		&dns.EDNS0_SUBNET{Code: dns.EDNS0SUBNET, Family: 1, SourceNetmask: 24, SourceScope: 0, Address: net.IP{192, 0, 2, 0}},
 		&dns.EDNS0_SUBNET{Code: dns.EDNS0SUBNET, Family: 2, SourceNetmask: 56, SourceScope: 0,
 			Address: net.IP{0x20, 0x01, 0x0d, 0xb8, 0, 0x11, 0x22, 0, 0, 0, 0, 0, 0, 0, 0, 0}},
+		&dns.EDNS0_SUBNET{Code: dns.EDNS0SUBNET, Family: 1, SourceNetmask: 32, SourceScope: 0, Address: net.IP{192, 0, 2, 77}},
+		&dns.EDNS0_SUBNET{Code: dns.EDNS0SUBNET, Family: 1, SourceNetmask: 0, SourceScope: 0, Address: net.IP{0, 0, 0, 0}},
+		&dns.EDNS0_SUBNET{Code: dns.EDNS0SUBNET, Family: 2, SourceNetmask: 128, SourceScope: 0,
+			Address: net.IP{0x20, 0x01, 0x0d, 0xb8, 0, 0, 0, 0, 0, 0, 0, 0, 0, 0, 0, 0x53}},
 		&dns.EDNS0_COOKIE{Code: dns.EDNS0COOKIE, Cookie: "0102030405060708"},
 		&dns.EDNS0_UL{Code: dns.EDNS0UL, Lease: 3600, KeyLease: 7200},
 		&dns.EDNS0_LLQ{Code: dns.EDNS0LLQ, Version: 1, Opcode: 1, Error: 0, Id: 0x0102030405060708, LeaseLife: 600},
@@ -331,11 +335,15 @@ func Pairs() []dns.SVCBKeyValue {
 	}
 }
 
-// Prefixes returns APL prefixes of both families.
+// Prefixes returns APL prefixes of both families in both shapes the codec knows: the
+// address shortened (trailing zero octets stripped on the wire) and at full length.
 func Prefixes() []dns.APLPrefix {
 	return []dns.APLPrefix{
 		{Negation: false, Network: net.IPNet{IP: net.IP{192, 0, 2, 0}, Mask: net.CIDRMask(24, 32)}},
+		{Negation: true, Network: net.IPNet{IP: net.IP{192, 0, 2, 77}, Mask: net.CIDRMask(32, 32)}},
 		{Negation: true, Network: net.IPNet{IP: net.IP{0x20, 0x01, 0x0d, 0xb8, 0, 0, 0, 0, 0, 0, 0, 0, 0, 0, 0, 0}, Mask: net.CIDRMask(32, 128)}},
+		{Negation: false, Network: net.IPNet{IP: net.IP{0x20, 0x01, 0x0d, 0xb8, 0, 0, 0, 0, 0, 0, 0, 0, 0, 0, 0, 0x53}, Mask: net.CIDRMask(128, 128)}},
+		{Negation: false, Network: net.IPNet{IP: net.IP{0, 0, 0, 0}, Mask: net.CIDRMask(0, 32)}},
 	}
 }
 
